@@ -6,13 +6,11 @@
           parse_float c TABLES BTABLES LIMITS f b i fr e = Ok (RN f (dec_value i fr e))
       where RN is Flocq's round-to-nearest-even on the FLT format of the regenerated constants, +infinity
       from 2^emax on ([C01_RN_spec]); tables and constants are the ones dumped from the compiled crate.
-      For the four COMPACT configurations (Bellerophon) there is NO further premise
-      ([C01_parse_float_correct_compact]).  For the four non-compact configurations (Eisel-Lemire) one
-      residual premise remains, [deep_ok]: a declined estimate never has a biased exponent below -64
-      (it could only fail if compute_float's all-ones fallback fired on a value below 2^(femin-2);
-      [C01_no_deep_fallback_from_shape] shows it holds whenever the decline is not that fallback;
-      see proofs/DeepFallback*.v for its status).  Without debug assertions the premise is not needed
-      for correctness of the slow path ([slow_correct_q_nodbg]).
+      NO further premise: [C01_parse_float_correct_final] / [C01_C01_final].  (The theorem was first proved
+      with one residual premise for the Eisel-Lemire configurations - "a declined estimate never has a
+      biased exponent below -64" - which [C01_no_deep_fallback] discharges: a Euclid-like modular search
+      written in Gallina, proved sound, and run by the kernel's VM over every deep (q, lz) instance of both
+      formats on the regenerated table, proofs/DeepFallback.v.)
     How it is composed: stage 1 [parse_number_exact] -> fast path [try_fast_path_eq] (Flocq Bmult/Bdiv)
       -> extended-precision stage [lemire_sound] / [bellerophon_sound] (props/C11.v) -> if declined, the
       estimate lemmas [lemire_declined_estimate] / [bellerophon_declined_estimate] feed the big-integer
@@ -24,10 +22,10 @@
 From Coq Require Import ZArith QArith Qabs List Bool Reals Qreals.
 From Coq Require Import Floats.SpecFloat.
 From Flocq Require Import Core.Core.
-From ML Require Import base.RustSem model.Fmt model.Num model.Number model.Parse model.Lemire model.Bellerophon model.Top
+From ML Require Import base.RustSem model.Fmt model.Num model.Number model.Parse model.Lemire model.Bellerophon model.Vec model.Bigint model.Slow model.Top
   spec.Decimal spec.Round spec.RoundFacts spec.DigitsSuffice gen.Consts gen.Tables gen.BTables gen.PowDump
   proofs.ParseFacts proofs.FastPathFacts proofs.EndToEnd proofs.EndToEnd2 proofs.EndToEnd3 proofs.EndToEnd4 proofs.EndToEnd5 proofs.EndToEnd6 proofs.EndToEnd7
-  proofs.LemireFacts6.
+  proofs.LemireFacts6 proofs.Glue proofs.TruncFacts proofs.TruncFacts2 proofs.SlowFacts1 proofs.DeepFallback proofs.DeepFallback2 proofs.Final.
 Import ListNotations.
 
 Open Scope Z_scope.
@@ -35,6 +33,27 @@ Open Scope Z_scope.
 Theorem C01_sfmt_ok_F64 :
   sfmt_ok F64 = true.
 Proof. exact sfmt_ok_F64. Qed.
+
+Theorem C01_C01_final :
+  forall (c : config) (b : build) (i fr : list Z) (e : Z),
+         In c ALL_CONFIGS -> in_domain i fr e -> PF c F64 b i fr e = Ok (RN F64 (dec_value i fr e)).
+Proof. exact C01_final. Qed.
+
+Theorem C01_parse_float_correct_final :
+  forall (c : config) (f : format) (b : build) (i fr : list Z) (e : Z),
+         In c ALL_CONFIGS ->
+         f = F32 \/ f = F64 ->
+         valid_inputb i fr e = true ->
+         zlen i + zlen fr <= 2 ^ 28 -> PF c f b i fr e = Ok (RN f (dec_value i fr e)).
+Proof. exact parse_float_correct_final. Qed.
+
+Theorem C01_no_deep_fallback :
+  forall (f : format) (b : build) (n : number),
+         f = F32 \/ f = F64 ->
+         0 <= nmant n < 2 ^ 64 ->
+         (many n = true -> 2 ^ (MANTISSA_SIZE f + 3) <= nmant n /\ nmant n + 1 < 2 ^ 64) ->
+         no_deep_fallback_at f b n.
+Proof. exact no_deep_fallback. Qed.
 
 Theorem C01_parse_float_correct :
   forall (c : config) (f : format) (b : build) (i fr : list Z) (e : Z),
@@ -65,27 +84,11 @@ Theorem C01_parse_float_correct_noncompact :
          parse_float c TABLES BT LIMITS f b i fr e = Ok (RN f (dec_value i fr e)).
 Proof. exact parse_float_correct_noncompact. Qed.
 
-Theorem C01_no_deep_fallback_from_shape :
-  forall (f : format) (b : build) (n : number),
-         f = F32 \/ f = F64 ->
-         0 <= nmant n < 2 ^ 64 ->
-         (many n = true -> 2 ^ (MANTISSA_SIZE f + 3) <= nmant n /\ nmant n + 1 < 2 ^ 64) ->
-         ~ declined_at f b (nexp n) (nmant n) ->
-         ~ declined_at f b (nexp n) (nmant n + 1) -> no_deep_fallback_at f b n.
-Proof. exact no_deep_fallback_from_shape. Qed.
-
-Theorem C01_C01_f64_correctly_rounded :
-  forall (c : config) (b : build) (i fr : list Z) (e : Z),
-         In c ALL_CONFIGS ->
-         in_domain i fr e -> deep_ok c F64 b i fr e -> PF c F64 b i fr e = Ok (RN F64 (dec_value i fr e)).
-Proof. exact C01_f64_correctly_rounded. Qed.
-
-Theorem C01_result_in_range :
+Theorem C01_result_in_range_final :
   forall (c : config) (f : format) (b : build) (i fr : list Z) (e r : Z),
          In c ALL_CONFIGS ->
-         f = F32 \/ f = F64 ->
-         in_domain i fr e -> deep_ok c f b i fr e -> PF c f b i fr e = Ok r -> 0 <= r <= inf_bits f.
-Proof. exact result_in_range. Qed.
+         f = F32 \/ f = F64 -> in_domain i fr e -> PF c f b i fr e = Ok r -> 0 <= r <= inf_bits f.
+Proof. exact result_in_range_final. Qed.
 
 Theorem C01_RN_spec :
   forall f : format,
@@ -200,12 +203,13 @@ Proof. exact parse_float_compact_declined_correct. Qed.
 
 
 Print Assumptions C01_sfmt_ok_F64.
+Print Assumptions C01_C01_final.
+Print Assumptions C01_parse_float_correct_final.
+Print Assumptions C01_no_deep_fallback.
 Print Assumptions C01_parse_float_correct.
 Print Assumptions C01_parse_float_correct_compact.
 Print Assumptions C01_parse_float_correct_noncompact.
-Print Assumptions C01_no_deep_fallback_from_shape.
-Print Assumptions C01_C01_f64_correctly_rounded.
-Print Assumptions C01_result_in_range.
+Print Assumptions C01_result_in_range_final.
 Print Assumptions C01_RN_spec.
 Print Assumptions C01_overflow_threshold_iff.
 Print Assumptions C01_underflow_threshold_iff.
